@@ -11,6 +11,7 @@ classify the outcome.
   //@loop <k>                                           following lines go between header and body of the k-th loop (textual order, 0-based)
   //@loop-after <k>                                     following lines go after the line with the closing brace of the k-th loop
   //@loop-body <k>                                      following lines go right after the opening brace of the k-th loop's body
+  //@loop-body-end <k>                                  following lines go before the line with the closing brace of the k-th loop (end of its body)
   //@before <snippet> / //@after <snippet>              following lines go before/after the (unique) body line containing <snippet>
   //@before #<k>/<n> <snippet>                          ... the k-th of exactly n body lines containing <snippet>
                                                         (<snippet> may be `re:<python regex>`, searched in each body line)
@@ -103,6 +104,7 @@ class Extract:
         self.loops = {}         # k -> [lines]
         self.loop_bodies = {}   # k -> [lines] inserted right after the opening brace of loop k
         self.loop_afters = {}   # k -> [lines] inserted after the line holding the closing brace of loop k
+        self.loop_body_ends = {}  # k -> [lines] inserted before the line holding the closing brace of loop k (end of its body)
         self.before = []        # (snippet, [lines])
         self.after = []
         self.body_start = []
@@ -198,6 +200,9 @@ def parse_vspec(path):
             elif d.startswith('loop-after '):
                 k = int(d.split()[1])
                 sink = ex.loop_afters.setdefault(k, [])
+            elif d.startswith('loop-body-end '):
+                k = int(d.split()[1])
+                sink = ex.loop_body_ends.setdefault(k, [])
             elif d.startswith('loop-body '):
                 k = int(d.split()[1])
                 sink = ex.loop_bodies.setdefault(k, [])
@@ -386,6 +391,15 @@ def render_extract(ex, report, vacuity=False):
         if bmsk[close + 1:bmsk.find('\n', close) if bmsk.find('\n', close) >= 0 else len(bmsk)].strip():
             raise AnchorLost(f"{fid}: loop-after {k}: code follows the closing brace on the same line")
         inserts_after.setdefault(li, []).extend(lines)
+    for k, lines in ex.loop_body_ends.items():
+        if k >= len(loops):
+            raise AnchorLost(f"{fid}: loop {k} not found (function has {len(loops)} loops)")
+        _, brace_off, _ = loops[k]
+        close = match_brace(bmsk, brace_off)
+        li = bmsk.count('\n', 0, close)
+        if bmsk[bmsk.rfind('\n', 0, close) + 1:close].strip():
+            raise AnchorLost(f"{fid}: loop-body-end {k}: code precedes the closing brace on the same line")
+        inserts_before.setdefault(li, []).extend(lines)
     rep['loops'] = len(loops)
     rep['loops_with_invariant'] = len(ex.loops)
     def anchor(snip):
@@ -420,8 +434,27 @@ def render_extract(ex, report, vacuity=False):
             # single-line tail expression
             opens = sum(t.count(c) for c in '([{') - sum(t.count(c) for c in ')]}')
             if opens != 0:
-                raise AnchorLost(f"{fid}: body-end: tail expression spans several lines")
-            inserts_before.setdefault(last, []).extend(ex.body_end)
+                # R23: a tail expression spanning several lines is named (`let res__tail = <expr>; <proof> res__tail`) so that
+                # the proof text can follow it; the expression itself is untouched
+                first = last
+                bal = 0
+                while first > 0:
+                    tl = mlines[first]
+                    bal += sum(tl.count(c) for c in ')]}') - sum(tl.count(c) for c in '([{')
+                    prev = mlines[first - 1].rstrip()
+                    if bal == 0 and (prev.endswith(';') or prev.endswith('{') or prev.endswith('}')):
+                        break
+                    first -= 1
+                if first <= 0 or bal != 0:
+                    raise AnchorLost(f"{fid}: body-end: cannot delimit the multi-line tail expression")
+                ind = len(blines[first]) - len(blines[first].lstrip())
+                blines[first] = blines[first][:ind] + 'let res__tail = ' + blines[first][ind:]
+                blines[last] = blines[last].rstrip() + ';'
+                mlines[first] = mlines[first][:ind] + 'let res__tail = ' + mlines[first][ind:]
+                rep['rewrites']['R23 name-tail-expression'] = 1
+                inserts_after.setdefault(last, []).extend(ex.body_end + [Line(' ' * ind + 'res__tail', ('vspec', ex.vline))])
+            else:
+                inserts_before.setdefault(last, []).extend(ex.body_end)
     out = []
     for i, t in enumerate(sig.split('\n')):
         out.append(Line(t, ('repo', ex.relpath, first_line + i)))
